@@ -214,6 +214,45 @@ func c15ResolveStability(c *mon.Ctx) {
 	}
 }
 
+// c15OrderIndependence runs first, on the cold process: for file-related syscalls, an event A with four PATH
+// records is coalesced, then an event B of the same syscall with a single PATH record (fewer than some
+// normalisations' path index), then A again: A must come out as the first time. (The normalisation entries are
+// shared by all events of a syscall: an event must not leave anything behind in them.)
+func c15OrderIndependence(c *mon.Ctx) {
+	mk := func(sc, npaths, seq int) []*auparse.AuditMessage {
+		hdr := fmt.Sprintf("audit(1500000000.400:%d):", seq)
+		lines := []string{fmt.Sprintf("type=SYSCALL msg=%s arch=c000003e syscall=%d success=yes exit=0 a0=1 a1=2 a2=3 a3=4 items=%d ppid=1 pid=2 auid=1000 uid=0 gid=0 euid=0 suid=0 fsuid=0 egid=0 sgid=0 fsgid=0 tty=pts0 ses=1 comm=\"mv\" exe=\"/bin/mv\" key=(null)", hdr, sc, npaths)}
+		for i := 0; i < npaths; i++ {
+			lines = append(lines, fmt.Sprintf("type=PATH msg=%s item=%d name=\"/srv/p%d_%d\" inode=%d dev=08:01 mode=0100644 ouid=0 ogid=0 rdev=00:00 nametype=%s", hdr, i, seq, i, 1000*seq+i, []string{"NORMAL", "CREATE", "DELETE", "NORMAL"}[i%4]))
+		}
+		var ms []*auparse.AuditMessage
+		for _, l := range lines {
+			if m, err := auparse.ParseLogLine(l); err == nil {
+				ms = append(ms, m)
+			}
+		}
+		return ms
+	}
+	coalesce := func(ms []*auparse.AuditMessage) string {
+		e, err := aucoalesce.CoalesceMessages(ms)
+		return eventSig(e, err)
+	}
+	// rename, mkdir, mount, mkdirat, renameat, renameat2, link, symlink, unlink, open, openat, chmod, chown, rmdir,
+	// creat, truncate, mknod, linkat, symlinkat, unlinkat, umount2
+	for i, sc := range []int{82, 83, 165, 258, 264, 316, 86, 88, 87, 2, 257, 90, 92, 84, 85, 76, 133, 265, 266, 263, 166} {
+		for _, small := range []int{1, 2} {
+			a1 := coalesce(mk(sc, 4, 100+10*i+small))
+			coalesce(mk(sc, small, 500+10*i+small))
+			a2 := coalesce(mk(sc, 4, 100+10*i+small))
+			c.Add("order_independence_triples", 1)
+			if a1 != a2 {
+				c.Violation("coalesce-depends-on-history", fmt.Sprintf("an event of syscall %d with 4 PATH records coalesces differently after an event of the same syscall with %d PATH record(s) was coalesced: %s", sc, small, diffSig(a1, a2)), &c15Case{Ops: []string{fmt.Sprintf("syscall %d: coalesce A(4 paths), coalesce B(%d paths), coalesce A", sc, small)}})
+				return
+			}
+		}
+	}
+}
+
 var hardcodeOnce sync.Once
 
 func hardcode() {
@@ -455,7 +494,7 @@ func c15Concurrent(c *mon.Ctx) {
 func init() {
 	register(&mon.CheckSpec{
 		ID: "C15", Level: "exploration",
-		Rule: "cases = seeded operation histories over a pool of 6-12 message groups (generated SYSCALL groups and single records with unique values, compound events that share one first record type - every named type in turn - with different syscalls, the repo's 47 recorded events, groups of hostile mutated text): CoalesceMessages(i), the same again (and four more times at the end of the history; some groups carry two SOCKADDR records of different families), ResolveIDs(e_j) through the global caches (names injected with HardcodeUsers/Groups for determinism), and a re-check of EVERY event returned so far after every operation. Deep copies of Data()/Tags()/ToMapStr() of every input message taken before its first use must equal the values afterwards; a repeated coalesce must give an equal event (JSON + sorted multiset of warning texts); every retained event must equal its own snapshot at every later step. After the histories, events whose ids carry names that never expire (root, injected names) are coalesced and resolved again after every few thousand unrelated ids went through the global caches: the result must not change. A second phase under the race detector coalesces and resolves different groups (incl. EXECVE records with 1..N arguments in ascending order) from 16 goroutines - the FIRST round on the cold process, before anything was coalesced sequentially, so lazily built global state is built by racing goroutines - and compares with a sequential reference computed afterwards (which must itself be stable). distinct_nontrivial = distinct histories (by pool text and op list) that contain a repeated coalesce or a ResolveIDs while other events are retained.",
+		Rule: "cases = (first, on the cold process) for 21 file-related syscalls an event with four PATH records coalesced before and after an event of the same syscall with one or two PATH records: equal results; then seeded operation histories over a pool of 6-12 message groups (generated SYSCALL groups and single records with unique values, compound events that share one first record type - every named type in turn - with different syscalls, the repo's 47 recorded events, groups of hostile mutated text): CoalesceMessages(i), the same again (and four more times at the end of the history; some groups carry two SOCKADDR records of different families), ResolveIDs(e_j) through the global caches (names injected with HardcodeUsers/Groups for determinism), and a re-check of EVERY event returned so far after every operation. Deep copies of Data()/Tags()/ToMapStr() of every input message taken before its first use must equal the values afterwards; a repeated coalesce must give an equal event (JSON + sorted multiset of warning texts); every retained event must equal its own snapshot at every later step. After the histories, events whose ids carry names that never expire (root, injected names) are coalesced and resolved again after every few thousand unrelated ids went through the global caches: the result must not change. A second phase under the race detector coalesces and resolves different groups (incl. EXECVE records with 1..N arguments in ascending order) from 16 goroutines - the FIRST round on the cold process, before anything was coalesced sequentially, so lazily built global state is built by racing goroutines - and compares with a sequential reference computed afterwards (which must itself be stable). distinct_nontrivial = distinct histories (by pool text and op list) that contain a repeated coalesce or a ResolveIDs while other events are retained.",
 		Assumptions: []string{
 			"the ORDER of Event.Warnings is not asserted (they are produced while ranging over maps); warnings are compared as a sorted multiset",
 			"ResolveIDs may change the event it is given; all other retained events and all input messages must stay equal",
@@ -469,6 +508,7 @@ func init() {
 				c15Concurrent(c)
 				return
 			}
+			c15OrderIndependence(c)
 			corpus := logenc.CorpusGroups()
 			hostile := logenc.Corpus()
 			if len(corpus) < 20 || len(hostile) < 100 {
